@@ -2,6 +2,7 @@ package rules
 
 import (
 	"go/token"
+	"go/types"
 
 	"golang.org/x/tools/go/ssa"
 
@@ -55,7 +56,11 @@ func regionOf(anchor *ssa.Function, stop ...*ssa.Function) *region {
 				return
 			}
 			if h.Signature.Recv() != nil {
-				return // methods are the API of a type, not a piece of the anchor
+				// methods are the API of a type, not a piece of the anchor - except the unexported methods of
+				// the anchor's own receiver type, which is how a method hands out parts of its work
+				if anchor.Signature.Recv() == nil || !types.Identical(h.Signature.Recv().Type(), anchor.Signature.Recv().Type()) {
+					return
+				}
 			}
 			r.sites[h] = append(r.sites[h], call)
 			visit(h, depth+1)
